@@ -5,9 +5,16 @@
    theorems are about File_Close AS FOUND IN THE SOURCE, and stop type-checking if it regresses.
    All statements hold for every byte type B, every zero byte, every classification of bytes
    and every set of creatable paths / of paths whose fclose fails. *)
-From CelloV Require Import Generated FileModel FileProofs FileRoundTrip FileExamples.
+From CelloV Require Import Generated FileModel FileProofs FileRoundTrip FileExamples FileTie.
 From Coq Require Import List ZArith.
 Import ListNotations.
+
+(* 0. src/File.c still has the shape the model encodes (facts re-extracted from the source text) *)
+Theorem file_c_has_the_modelled_shape :
+  file_close_tests_closed = true /\ file_close_clears_always = true /\
+  file_ops_guarded = true /\ file_del_open_shape = true.
+Proof. exact FileTie.file_c_shape. Qed.
+Print Assumptions file_c_has_the_modelled_shape.
 
 (* 1. an operation on a File that is not open raises IOError, changes nothing (the world, which
       includes the ledger of stdio calls, is returned unchanged: no handle is touched) *)
